@@ -2,7 +2,11 @@
 
 package dns_naming
 
-import "github.com/irai/packet"
+import (
+	"time"
+
+	"github.com/irai/packet"
+)
 
 // Verification hooks: compiled only with -tags verif. They never change the
 // behaviour of the handler; they only make it constructible without a NIC.
@@ -23,5 +27,16 @@ func VerifNew(session *packet.Session) *DNSHandler {
 func (h *DNSHandler) VerifResetMDNSCache() {
 	h.mutex.Lock()
 	h.mdnsCache = make(map[string]cache)
+	h.mutex.Unlock()
+}
+
+// VerifAgeMDNSCache makes every entry of the mDNS response cache d older (as if d of wall clock
+// time had passed since it was stored), under the handler mutex.
+func (h *DNSHandler) VerifAgeMDNSCache(d time.Duration) {
+	h.mutex.Lock()
+	for k, c := range h.mdnsCache {
+		c.expiry = c.expiry.Add(-d)
+		h.mdnsCache[k] = c
+	}
 	h.mutex.Unlock()
 }
